@@ -17,7 +17,7 @@ from .. import common
 from ..common import Ctx
 from ..vloop import VLoop
 
-THEOREMS = ["C11_duty_window", "C11_sleep_exact", "C11_gap_window", "C11_mq_bounded_wait", "C11_mq_allowance", "C11_mq_invariant"]
+THEOREMS = ["C11_duty_window", "C11_sleep_exact", "C11_gap_window", "C11_mq_bounded_wait", "C11_mq_allowance", "C11_mq_invariant", "C11_allowance_as_stated"]
 
 TPS = 1 << 20
 RATE_BITS_S = 384
